@@ -693,6 +693,8 @@ def inline_new_helpers(trees: dict[str, ast.Module], base: dict[str, Any], log: 
         for mod, hs in nh.items():
             tree = trees[mod]
             for name, (h, is_m, cname) in hs.items():
+                if not name.startswith("_"):
+                    continue  # a new public function is an entry point of its own: expanded into its callers, never dropped
                 if not _referenced(trees, name, h) or not _still_called(trees, name, h):
                     _remove_def(tree, h)
                     log.append(f"dropped {mod}:{name}")
